@@ -59,15 +59,17 @@ func (l *LamportClock) Merge(clock iface.IPFSLogLamportClock) iface.IPFSLogLampo
 // Compare calculate the "distance" based on the clock, ie. lower or greater.
 func (l *LamportClock) Compare(b iface.IPFSLogLamportClock) int {
 	// TODO: Make it a Golang slice-compatible sort function
-	dist := l.Time - b.GetTime()
-
 	// If the sequence number is the same (concurrent events),
 	// return the comparison between IDs
-	if dist == 0 {
+	if l.Time == b.GetTime() {
 		return bytes.Compare(l.ID, b.GetID())
 	}
 
-	return dist
+	if l.Time < b.GetTime() {
+		return -1
+	}
+
+	return 1
 }
 
 // CopyLamportClock returns a copy of a lamport clock
